@@ -17,7 +17,17 @@ Operand environments (`make_env`):
             i-th standard variable, i.e. the operand values are still enumerated exhaustively;
   hostrand  operands are arbitrary (possibly repeated) nodes of a seeded random circuit (vlib.spec.gen.random_net),
             all input patterns of that circuit;
-  random    primary inputs, P seeded random patterns preceded by corner patterns (wide Karatsuba cases).
+  random    primary inputs, P seeded random patterns preceded by corner patterns (wide Karatsuba cases): every
+            operand in {0, 1, 2^w-1 (all ones), 2^(w-1), 2^w-2, 0xAAAA.., 0x5555..}, all combinations;
+  adversarial  operands are the primary inputs of a host that already holds a gate of EVERY binary type over the
+            first two bit positions of each operand pair, in both operand orders, plus NOT/IFF of the first bits
+            (a generator that looks an existing gate up instead of adding a fresh one, or that ignores the operand
+            order when doing so, meets a colliding gate here); all operand values;
+  adversarial2  the same host with the two operand orders stored in the opposite sequence (whether a lookup returns
+            the first or the last match, one of the two hosts presents the order-swapped gate);
+  twice     bare primary inputs; the driver calls the generator once with the operands SWAPPED (b, a) before the
+            checked call (a, b) and checks both results in the final circuit (`Twice`): the second call meets the
+            gates of the first one (same types, same operands in the opposite order).
 
 `Frame` checks the frame clauses shared by the three properties: every pre-existing gate keeps label, type,
 operands and function; only fresh non-input gates are added; outputs change only when requested; the
@@ -239,14 +249,51 @@ def _split(labels, widths):
     return out
 
 
+ADVERSARIAL_MODES = ('adversarial', 'adversarial2')
+ADV_MODES = ['adversarial', 'adversarial2', 'twice']       # what the drivers add to their mode lists at small widths
+ADVERSARIAL_TYPES = ['AND', 'OR', 'XOR', 'NXOR', 'NAND', 'NOR', 'GT', 'LT', 'GEQ', 'LEQ', 'LNOT', 'RNOT', 'LIFF', 'RIFF']
+
+
+def adversarial_pairs(ops):
+    """unordered operand pairs the adversarial host is populated over: bit i of operand s with bit i of operand t
+    (i < 2) for every two operands; a single operand (or 1-bit operands only) contributes its own first two bits."""
+    pairs = []
+    for s in range(len(ops)):
+        for t in range(s + 1, len(ops)):
+            for i in range(2):
+                if i < len(ops[s]) and i < len(ops[t]):
+                    pairs.append((ops[s][i], ops[t][i]))
+    if len(ops) == 1 and len(ops[0]) >= 2:
+        pairs.append((ops[0][0], ops[0][1]))
+    return pairs
+
+
+def _populate_adversarial(c, gate, ops, swapped_first):
+    """Both operand orders of every type are present; `swapped_first` selects which of the two is stored first
+    (a lookup that returns the first / the last match meets the wrong one in one of the two hosts)."""
+    firsts = [o[0] for o in ops]
+    for x in firsts:
+        c.emplace_gate(f'adv_NOT_{x}', gate.NOT, (x,))
+        c.emplace_gate(f'adv_IFF_{x}', gate.IFF, (x,))
+    outs = []
+    for x, y in adversarial_pairs(ops):
+        for t in ADVERSARIAL_TYPES:
+            for p, q in ((y, x), (x, y)) if swapped_first else ((x, y), (y, x)):
+                c.emplace_gate(f'adv_{t}_{p}_{q}', getattr(gate, t), (p, q))
+        outs += [f'adv_LT_{y}_{x}', f'adv_GEQ_{x}_{y}']
+    c.set_outputs([f'adv_NOT_{firsts[0]}'] + outs[:2] + [firsts[-1]])
+
+
 def make_env(mode, widths, salt=()):
     """Build an operand environment; operand t has widths[t] bits."""
     Circuit, gate = _circuit_api()
     k = sum(widths)
-    if mode in ('bare', 'decorated'):
+    if mode in ('bare', 'decorated', 'adversarial', 'adversarial2', 'twice'):
         labels = [f'{chr(97 + t)}{s}' for t, w in enumerate(widths) for s in range(w)]
         c = Circuit.bare_circuit_with_labels(labels)
         P, mask, vs = var_vectors(k)
+        if mode in ('adversarial', 'adversarial2'):
+            _populate_adversarial(c, gate, _split(labels, widths), swapped_first=(mode == 'adversarial2'))
         if mode == 'decorated':
             c.emplace_gate('dec_and', gate.AND, (labels[0], labels[-1]))
             c.emplace_gate('dec_not', gate.NOT, ('dec_and',))
@@ -305,9 +352,11 @@ def make_env(mode, widths, salt=()):
         P = 256
         mask = (1 << P) - 1
         ops = _split(labels, widths)
-        # corner patterns first: every operand in {0, 1, 2^w-1, 2^(w-1)} (cartesian for two operands)
+        # corner patterns first: every operand in {0, 1, 2^w-1, 2^(w-1), 2^w-2, 0xAA.., 0x55..} (cartesian for two
+        # operands: 49 patterns, among them all-ones x all-ones), then seeded random operands
         corners = []
-        per = [[0, 1, (1 << w) - 1, 1 << (w - 1), (1 << w) - 2 if w > 1 else 0] for w in widths]
+        per = [[0, 1, (1 << w) - 1, 1 << (w - 1), (1 << w) - 2 if w > 1 else 0,
+                int('10' * w, 2) & ((1 << w) - 1), int('01' * w, 2) & ((1 << w) - 1)] for w in widths]
         import itertools
         for combo in itertools.product(*per):
             corners.append(combo)
@@ -463,6 +512,50 @@ class Frame:
         return Counter(self.post.gates[g][0] for g in self.new)
 
 
+class Twice:
+    """'twice' operand mode: `first()` runs the generator with the operands swapped before the Frame of the checked
+    call is taken; `check()` evaluates the labels that first call returned in the FINAL circuit (after the checked
+    call) against the swapped expectation.  For one-operand generators the first call uses the same operand (and,
+    where there is one, a different constant)."""
+
+    def __init__(self, fn, variant, env):
+        self.fn = fn
+        self.v = variant
+        self.env = env
+        self.args = None
+        self.result = None
+        self.fail = []
+
+    def first(self, f, args, *a, **kw):
+        """-> True when the first call returned"""
+        self.args = args
+        try:
+            self.result = f(*a, **kw)
+            return True
+        except Exception as e:  # noqa
+            tn, msg, where, _ = exc_info(e)
+            self.fail = [('no-exception', f'{self.fn}({args}) (first of two calls in one circuit) raised {tn}: {msg} at {where}',
+                          replay(self.fn, self.v, args, None, observed=f'{tn}: {msg} at {where}', expected='no exception'))]
+            return False
+
+    def check(self, fr, clause, res_le, exp, what, second_args):
+        """value of the FIRST call's result in the circuit after the second call"""
+        if fr.vals is None or self.result is None:
+            return []
+        rp = dict(first_call=self.args, second_call=second_args)
+        miss = labels_missing(fr.vals, res_le)
+        if miss:
+            return [(clause, f'{self.fn}: first of two calls ({self.args}) returned label {miss[0]!r} that is not a gate after the second call ({second_args})',
+                     replay(self.fn, self.v, self.args, fr, **rp))]
+        bad = compare_bits(self.env, fr.vals, res_le, exp)
+        if bad:
+            return [(clause, f'{self.fn}: result of the first of two calls ({self.args}), evaluated after the second call ({second_args}): {what}: '
+                             f'operands {bad["operands"]} -> observed {bad["observed"]}, expected {bad["expected"]}',
+                     replay(self.fn, self.v, self.args, fr, failing_input=bad['inputs'], operand_values=bad['operands'],
+                            observed=bad['observed'], expected=bad['expected'], **rp))]
+        return []
+
+
 def labels_missing(vals, labels):
     return [l for l in labels if l not in vals]
 
@@ -489,7 +582,8 @@ class Out:
         self.cases.append((driver, key, nontrivial, sample))
 
     def violation(self, obligation, witness, detail, replay, neutral=None):
-        """neutral: the witness class this failure would have without its core-argument token (None: no such token)."""
+        """neutral: the witness class this failure would have without its core-argument token (None: no such token),
+        or a tuple of such classes (without the token / with one of the alternative tokens of the Core)."""
         for v in self.violations:
             if v[0] == obligation and v[1] == witness:
                 return
@@ -548,10 +642,14 @@ class Core:
 
     BASE_MODES = ('bare', 'generated', 'random')
 
-    def __init__(self, prop, fn, core_token=None, delegate=None):
+    def __init__(self, prop, fn, core_token=None, delegate=None, alt_tokens=()):
         self.prop = prop
         self.fn = fn
         self.core_token = core_token
+        # other features of the same core arguments that have a token of their own in other cores (e.g. a wide odd
+        # Karatsuba shape that also has unequal lengths): when the obligation fails in such a class as well, the
+        # core token does not describe what the failure depends on
+        self.alt_tokens = tuple(t for t in alt_tokens if t and t != core_token)
         self.delegate = delegate   # a generate_* wrapper names the add_* form it calls: a failure the add_* form
         #                            already shows (same clause, same witness, same task) is that form's finding
         self.fail = {}     # variant key -> {clause: (detail, replay, token override)}
@@ -584,8 +682,13 @@ class Core:
                         if not base_fails:
                             if mode == 'hostrand' and (be, 'host', basis) in self.seen and not self._fails((be, 'host', basis), clause):
                                 toks.append('arbitrary-gate-operands')
-                            elif mode == 'decorated':
+                            elif mode == 'decorated' or (mode in ADVERSARIAL_MODES + ('twice',) and self._fails((be, 'decorated', basis), clause)):
                                 toks.append('inputs-of-host')
+                            elif mode in ADVERSARIAL_MODES or (mode == 'twice' and any(self._fails((be, m, basis), clause) for m in ADVERSARIAL_MODES)):
+                                # calling twice is a special case of a host that holds colliding gates
+                                toks.append('adversarial-host')
+                            elif mode == 'twice':
+                                toks.append('called-twice')
                             else:
                                 toks.append('internal-gate-operands')
                     if basis is not None and basis != XAIG_ENUM:
@@ -598,11 +701,11 @@ class Core:
                         elif basis[1] == 'AIG' and not self._fails((be, mode, XAIG_ENUM), clause):
                             toks.append('aig')
                     neutral = '-'.join(toks) or 'any'
-                    if self.core_token:
-                        toks.append(self.core_token)
-                    witness = '-'.join(toks) or 'any'
+                    witness = '-'.join(toks + ([self.core_token] if self.core_token else [])) or 'any'
                     if neutral == witness:
                         neutral = None
+                    elif self.alt_tokens:
+                        neutral = (neutral,) + tuple('-'.join(toks + [a]) for a in self.alt_tokens)
                 if self.delegate is not None and any(x[0] == f'{self.prop}/{self.delegate}/{clause}' and x[1] == witness
                                                      for x in out.violations):
                     continue
@@ -613,7 +716,7 @@ def replay(fn, variant, args, frame=None, **more):
     r = {'kind': 'bounded', 'function': fn, 'arguments': args}
     if variant is not None:
         r.update(variant.describe())
-    if frame is not None and frame.pre is not None and len(frame.pre.gates) <= 80:
+    if frame is not None and frame.pre is not None and len(frame.pre.gates) <= 160:
         r['circuit_before_call'] = frame.pre.to_json()
     r.update(more)
     return r
@@ -639,8 +742,9 @@ def run_tasks(rep, prop, modname, tasks, quick):
     """tasks: list of (function name, args).  Sequential in the quick tier, forked pool in the thorough tier;
     results are merged in task order, so the outcome does not depend on scheduling.
     Violations are filed after all tasks have finished: a failure whose witness class carries a core-argument token
-    (e.g. `unequal-lengths`) is dropped when the same obligation also fails in the class without that token, because
-    then the token does not describe what the failure depends on (one root cause, one pair)."""
+    (e.g. `unequal-lengths`) is dropped when the same obligation also fails in the class without that token (or with
+    one of the alternative tokens of its Core), because then the token does not describe what the failure depends
+    on (one root cause, one pair)."""
     items = [(modname, f, prop, a) for f, a in tasks]
     sampled = {}
     viol = []
@@ -658,6 +762,6 @@ def run_tasks(rep, prop, modname, tasks, quick):
                 viol += o.violations
     have = {(v[0], v[1]) for v in viol}
     for o, w, d, r, neutral in viol:
-        if neutral is not None and (o, neutral) in have:
+        if neutral is not None and any((o, x) in have for x in ((neutral,) if isinstance(neutral, str) else neutral)):
             continue
         rep.violation(o, w, d, r)
